@@ -22,12 +22,14 @@ WPc(p) == CASE p = 400 -> "wait" [] p = 401 -> "woken" [] p = 402 -> "locked" []
             [] p = 499 -> "exited"
             [] OTHER   -> "?"
 CtlName(o) == CASE o = 2 -> "SetThreaded" [] o = 3 -> "Enable" [] o = 4 -> "Conf" [] o = 5 -> "Close"
-(* non-yielding hook points a step passes: "posted" after each sem_post, "joined" after pthread_join *)
-Via(from) == CASE from = 413 -> <<414>> [] from = 421 -> <<422>> [] from = 423 -> <<424>> [] OTHER -> <<>>
+(* non-yielding hook points a step passes: "posted" after each sem_post, "joined" after pthread_join,
+   "created" when qb_log_thread_start has created a logging thread *)
+Via(from, newthread) == CASE from = 413 -> <<414>> [] from = 421 -> <<422>> [] from = 423 -> <<424>>
+                          [] newthread -> <<425>> [] OTHER -> <<>>
 
 Last(s) == s[Len(s)]
 (* the observations taken after the step, against the successor state *)
-Obs(r, from) ==
+Obs(r, from, newthread) ==
   /\ (r[5] >= 0 => sem' = r[5])
   /\ (r[6] # -1 => memUsed' = r[6])
   /\ (r[7] >= 0 => Len(queue') = r[7])
@@ -35,7 +37,8 @@ Obs(r, from) ==
   /\ r[9] = reported' - reported
   /\ (r[1] = 0 => r[11] = 0)                         \* the call that returned succeeded
   /\ (r[1] \in {404, 408, 410} => dropped' = r[3])  \* hooks that carry logt_dropped_messages
-  /\ r[12] = Via(from)
+  /\ r[12] = Via(from, newthread)
+  /\ (r[13] >= 0 => (r[13] = 1) = (lock' # "free"))  \* the logging thread's lock is really held iff somebody holds it here
 (* every lock / unlock of one incarnation of the logging thread names the same, non-NULL lock object *)
 LockId(r, newthread) ==
   IF r[4] >= 0                                       \* the arrival hook names the lock object
@@ -57,8 +60,8 @@ TStep(ev) ==
             /\ wpc = WPc(a[2])
             /\ WNext
             /\ wpc' = WPc(r[1])
-  /\ Obs(r, a[2])
-  /\ LockId(r, a[1] = 1 /\ a[3] = 6 /\ wpc = "none" /\ wpc' = "wait")     \* a new logging thread: a new lock object
+  /\ LET newthread == (wpc = "none" /\ wpc' = "wait") IN                      \* a new logging thread: a new lock object
+     Obs(r, a[2], newthread) /\ LockId(r, newthread)
 
 ResetState ==
   /\ inited' = FALSE /\ inits' = 0 /\ tstate' = "unused" /\ threaded' = FALSE
